@@ -143,18 +143,36 @@ func ruleQueueReady(ctx *Ctx, rule string) {
 		}
 		return
 	}
+	// the values stored into base.ready by fulfill, or by helpers that did not
+	// exist on the reference tree on its behalf (a parameter of such a helper
+	// stands for the argument fulfill passes)
 	vals := map[ssa.Value]bool{}
-	for _, b := range f.Blocks {
-		for _, in := range b.Instrs {
-			st, ok := in.(*ssa.Store)
-			if !ok {
-				continue
-			}
-			if fa, ok := st.Addr.(*ssa.FieldAddr); ok && ssaq.FieldVar(fa) == readyF {
-				vals[st.Val] = true
+	var collect func(fn *ssa.Function, arg func(ssa.Value) ssa.Value, depth int)
+	collect = func(fn *ssa.Function, arg func(ssa.Value) ssa.Value, depth int) {
+		for _, b := range fn.Blocks {
+			for _, in := range b.Instrs {
+				switch x := in.(type) {
+				case *ssa.Store:
+					if fa, ok := x.Addr.(*ssa.FieldAddr); ok && ssaq.FieldVar(fa) == readyF {
+						vals[arg(x.Val)] = true
+					}
+				case *ssa.Call:
+					g := x.Call.StaticCallee()
+					if g == nil || !ssaq.IsNew(g) || depth >= 2 || len(g.Blocks) == 0 {
+						continue
+					}
+					args := x.Call.Args
+					collect(g, func(v ssa.Value) ssa.Value {
+						if i := paramIndex(g, v); i >= 0 && i < len(args) {
+							return arg(args[i])
+						}
+						return v
+					}, depth+1)
+				}
 			}
 		}
 	}
+	collect(f, func(v ssa.Value) ssa.Value { return v }, 0)
 	pos := q.Pos(f.Pos())
 	key := "server.(*answerQueue).fulfill | one ready channel for all bases, closed on return"
 	if len(vals) != 1 {
